@@ -220,7 +220,7 @@ def op_expand(w, s):
     w.put(s["out"], e.kind, res, dense.dense_of(res), e.mid, {"expanded": int(m)})
     # the expander adds components of relative size 1e-10: the represented state must not move more than that
     err = float(np.linalg.norm((w.h[s["out"]].shadow - e.shadow).ravel()))
-    sc = float(np.linalg.norm(e.shadow.ravel()))
+    sc = float(np.linalg.norm(e.shadow.ravel())) * max(1.0, float(np.linalg.norm(eh.shadow, 2)))   # (one branch adds H|psi> un-normalised: coef x ||H||)
     w.stats.ratio("C09.expand", err, 1e-8 * sc)
     if err > 1e-8 * sc:
         raise V({"C09", "C13"}, "C09.expand.moved_state", f"expand_bond_dimension changed the state by {err:.3e} (norm {sc:.3e})")
